@@ -101,8 +101,11 @@ def write_evidence(ctx, mod, nviol, wall):
         "violations": nviol,
     }
     validate_evidence(ev)
-    os.makedirs(os.path.join(VERIF, "evidence"), exist_ok=True)
-    path = os.path.join(VERIF, "evidence", f"{ctx.pid}.json")
+    edir = os.environ.get("VERIF_EVIDENCE_DIR") or (
+        os.path.join(VERIF, "evidence") if os.path.realpath(core.REPO) == "/repo" else "/tmp/verif-scratch-evidence"
+    )
+    os.makedirs(edir, exist_ok=True)
+    path = os.path.join(edir, f"{ctx.pid}.json")
     tmp = path + ".tmp"
     with open(tmp, "w") as fh:
         json.dump(ev, fh, indent=1, sort_keys=True, default=repr)
@@ -177,6 +180,8 @@ def main(argv=None):
             return None
 
         rdir = os.path.join(VERIF, "replays", pid)
+        if os.path.realpath(core.REPO) != "/repo":
+            rdir = os.path.join("/tmp/verif-scratch-replays", core.safe_name(core.REPO), pid)
         new = []
         listed = []
         for key, (desc, case) in by_key.items():
